@@ -6,14 +6,22 @@ META = {
     "at delay 0) and z-expressions; coefficients from {0, +-1, 2, -3, dyadic "
     "floats} (exact class) and Fractions (toleranced class, 1e-12 on each "
     "form coefficient); samples are symbolic (Lin x_i), ints or Fractions; "
+    "exactness classes follow Python's own arithmetic: symbolic samples are "
+    "always exact (Lin works in Fractions) unless a Fraction coefficient is "
+    "formatted as a/b or a float coefficient meets a Fraction zero; numeric "
+    "samples are compared exactly only with integer coefficients, gain +-1 and "
+    "no float zero, otherwise within 1e-9 relative per form coefficient; "
     "memory none / list / tuple / generator / endless generator / callable, "
     "zero symbolic Z or numeric; plus non-causal filters (must raise "
-    "ValueError) and the all-zero filter. Non-trivial = at least one output "
+    "ValueError), the all-zero filter, complex coefficients (incl. "
+    "unit-modulus ones) against a numeric oracle, and several threads "
+    "compiling and running different filters at once. Non-trivial = at least one output "
     "form compared; distinct = distinct case descriptions",
   "assumptions": [
     "memories shorter than the filter order are not generated (statement: "
     "memories of sufficient length)",
-    "complex samples are not generated (the Lin shadow value is real)",
+    "complex coefficients / samples are checked numerically (1e-9 relative), "
+    "not with the real-valued Lin shadow values",
     "Lin arithmetic (exact Fractions) is trusted; floats met in the generated "
     "source are converted exactly"],
   "level_text":
